@@ -12,6 +12,7 @@ oracle : an independent Python evaluator of the documented rules (impl/doc/{from
          instrumented user From impls, trait-resolution probes for the impl set, round trips
 """
 import json
+import random
 import re
 
 from lib import common
@@ -61,14 +62,60 @@ def py_ty(t):
     return tuple(py_ty(x) for x in t[1])
 
 
-def rust_ty(t):
+class Speller:
+    """How tuple types are *written* in the rendered item (the type is the same): plain `(A, B)`, with a trailing
+    comma `(A, B,)`, over several lines, without spaces.  `mode` 0/None = always plain; an int seeds a private PRNG
+    (so a case renders the same way every time); "trail" / "ml" force one spelling."""
+
+    def __init__(self, mode):
+        self.mode = mode
+        self.r = random.Random(mode) if isinstance(mode, int) and mode else None
+
+    def tuple(self, parts):
+        if len(parts) == 0:
+            return "( )" if self.r is not None and self.r.random() < 0.3 else "()"
+        st = "plain"
+        if self.mode == "trail":
+            st = "trail"
+        elif self.mode == "ml":
+            st = "ml-trail"
+        elif self.r is not None:
+            st = self.r.choice(["plain", "trail", "trail", "ml", "ml-trail", "tight", "tight-trail"])
+        if len(parts) == 1:
+            return {"ml": "(\n    %s,\n)", "ml-trail": "(\n    %s,\n)", "tight": "(%s,)", "tight-trail": "(%s,)"}.get(st, "(%s,)") % parts[0]
+        if st == "plain":
+            return "(%s)" % ", ".join(parts)
+        if st == "trail":
+            return "(%s,)" % ", ".join(parts)
+        if st == "ml":
+            return "(\n    %s\n)" % ",\n    ".join(parts)
+        if st == "ml-trail":
+            return "(\n    %s,\n)" % ",\n    ".join(parts)
+        if st == "tight":
+            return "(%s)" % ",".join(parts)
+        return "(%s,)" % ",".join(parts)
+
+
+    def noise(self):
+        """an unrelated attribute in between (the derives must look at their own attributes only)"""
+        if self.r is None or self.r.random() < 0.8:
+            return ""
+        return self.r.choice(['#[doc = "n"]', "#[allow(dead_code)]", "/// d\n", '#[cfg_attr(any(), deprecated)]'])
+
+    def comma(self):
+        """an optional trailing comma at the end of an attribute argument list"""
+        return "," if self.r is not None and self.r.random() < 0.3 else ""
+
+
+PLAIN = Speller(0)
+
+
+def rust_ty(t, sp=PLAIN):
     if isinstance(t, str):
         return t
     if isinstance(t, int):
         return "__FromT%d" % t
-    if len(t) == 1:
-        return "(%s,)" % rust_ty(t[0])
-    return "(%s)" % ", ".join(rust_ty(x) for x in t)
+    return sp.tuple([rust_ty(x, sp) for x in t])
 
 
 def paren_list(l):
@@ -78,6 +125,34 @@ def paren_list(l):
 
 def ws(s):
     return re.sub(r"\s+", "", s)
+
+
+def canon_commas(s):
+    """whitespace-free token string with the optional trailing comma of every parenthesised group of two or more
+    elements removed (`(A,B,)` -> `(A,B)`; the comma of a one-element tuple `(A,)` is significant and kept)"""
+    stack = []          # (bracket, number of top-level commas, index of last top-level comma in out)
+    out = []
+    for i, c in enumerate(s):
+        if c in "([{<":
+            stack.append([c, 0, -1])
+            out.append(c)
+            continue
+        if c == ">" and (i > 0 and s[i - 1] in "-="):
+            out.append(c)
+            continue
+        if c in ")]}>":
+            want = {")": "(", "]": "[", "}": "{", ">": "<"}[c]
+            if stack and stack[-1][0] == want:
+                _, n, last = stack.pop()
+                if c == ")" and n >= 2 and out and out[-1] == "," and last == len(out) - 1:
+                    out.pop()
+            out.append(c)
+            continue
+        if c == "," and stack:
+            stack[-1][1] += 1
+            stack[-1][2] = len(out)
+        out.append(c)
+    return "".join(out)
 
 
 def canon_paren(s):
@@ -121,32 +196,44 @@ KIND_COQ = {"owned": "KOwned", "ref": "KRef", "ref_mut": "KRefMut"}
 KIND_PY = {v: k for k, v in KIND_COQ.items()}
 
 
-def fields_src(style, fields, attrs=None):
+def fname(raw, i):
+    """name of the i-th field of a braced struct/variant; `raw` cases spell it as a raw identifier"""
+    return ("r#f%d" if raw else "f%d") % i
+
+
+def fields_src(style, fields, attrs=None, sp=PLAIN, raw=False):
     def one(i, t):
-        a = "".join(x + " " for x in (attrs[i] if attrs else []))
-        return a + ("f%d: %s" % (i, rust_ty(t)) if style == "named" else rust_ty(t))
+        own = list(attrs[i] if attrs else [])
+        own.insert(sp.r.randrange(len(own) + 1) if sp.r is not None else 0, sp.noise())
+        a = "".join(x + " " for x in own if x)
+        return a + ("%s: %s" % (fname(raw, i), rust_ty(t, sp)) if style == "named" else rust_ty(t, sp))
     if style == "unit":
         return ""
     body = ", ".join(one(i, t) for i, t in enumerate(fields))
     return "{ %s }" % body if style == "named" else "(%s)" % body
 
 
-def from_attr_src(a):
-    return "#[from]" if a is None else "#[from(%s)]" % ", ".join(rust_ty(t) for t in a)
+def from_attr_src(a, sp=PLAIN):
+    if a is None:
+        return "#[from]"
+    # `skip,` / `forward,` are not the words any more (the word parsers want the whole argument list): no comma there
+    tc = sp.comma() if a and a not in (["skip"], ["ignore"], ["forward"]) else ""
+    return "#[from(%s%s)]" % (", ".join(rust_ty(t, sp) for t in a), tc)
 
 
-def into_attr_src(a):
+def into_attr_src(a, sp=PLAIN):
     if a is None:
         return "#[into]"
     parts = []
     for it in a:
         if it[0] == "t":
-            parts.append(rust_ty(it[1]))
+            parts.append(rust_ty(it[1], sp))
         elif it[2] is None:
             parts.append(it[1])
         else:
-            parts.append("%s(%s)" % (it[1], ", ".join(rust_ty(t) for t in it[2])))
-    return "#[into(%s)]" % ", ".join(parts)
+            parts.append("%s(%s%s)" % (it[1], ", ".join(rust_ty(t, sp) for t in it[2]), sp.comma() if it[2] else ""))
+    single_word = len(a) == 1 and a[0][0] == "t" and a[0][1] in ("skip", "ignore")
+    return "#[into(%s%s)]" % (", ".join(parts), sp.comma() if a and not single_word else "")
 
 
 def struct_src(attrs, gen, style, fsrc, name="S"):
@@ -154,27 +241,32 @@ def struct_src(attrs, gen, style, fsrc, name="S"):
     wh = (" where " + ", ".join(g[3])) if g[3] else ""
     wh = wh.replace(":", ": ")
     if style == "named":
-        return "%s struct %s%s%s %s" % (" ".join(attrs), name, g[0], wh, fsrc)
-    return "%s struct %s%s%s%s;" % (" ".join(attrs), name, g[0], fsrc, wh)
+        return "%s struct %s%s%s %s" % (" ".join(a for a in attrs if a), name, g[0], wh, fsrc)
+    return "%s struct %s%s%s%s;" % (" ".join(a for a in attrs if a), name, g[0], fsrc, wh)
 
 
 def item_src(case, name=None):
     d = case["derive"]
+    sp = Speller(case.get("spell", 0))
+    raw = bool(case.get("raw"))
     if d == "From" and case["kind"] == "enum":
         g = GENERICS[case["gen"]]
         wh = (" where " + ", ".join(g[3]).replace(":", ": ")) if g[3] else ""
         vs = []
         for k, v in enumerate(case["variants"]):
-            vs.append("%s V%d%s" % (" ".join(from_attr_src(a) for a in v["attrs"]), k, fields_src(v["style"], v["fields"])))
-        return "enum %s%s%s { %s }" % (name or "E", g[0], wh, ", ".join(vs))
+            vs.append("%s %s V%d%s" % (sp.noise(), " ".join(from_attr_src(a, sp) for a in v["attrs"]), k,
+                                       fields_src(v["style"], v["fields"], None, sp, raw)))
+        return "%s enum %s%s%s { %s }" % (sp.noise(), name or "E", g[0], wh, ", ".join(vs))
     if d == "From":
-        return struct_src([from_attr_src(a) for a in case["attrs"]], case["gen"], case["style"],
-                          fields_src(case["style"], case["fields"]), name or "S")
+        return struct_src([sp.noise()] + [from_attr_src(a, sp) for a in case["attrs"]], case["gen"], case["style"],
+                          fields_src(case["style"], case["fields"], None, sp, raw), name or "S")
     if d == "Into":
-        fa = [[into_attr_src(a) for a in f[1]] for f in case["fields"]]
-        return struct_src([into_attr_src(a) for a in case["sattrs"]], case["gen"], case["style"],
-                          fields_src(case["style"], [f[0] for f in case["fields"]], fa), name or "S")
-    return struct_src([], case["gen"], case["style"], fields_src(case["style"], case["fields"]), name or "S")
+        sa = [into_attr_src(a, sp) for a in case["sattrs"]] + [sp.noise()]
+        fa = [[into_attr_src(a, sp) for a in f[1]] for f in case["fields"]]
+        return struct_src(sa, case["gen"], case["style"],
+                          fields_src(case["style"], [f[0] for f in case["fields"]], fa, sp, raw), name or "S")
+    return struct_src([sp.noise()], case["gen"], case["style"], fields_src(case["style"], case["fields"], None, sp, raw),
+                      name or "S")
 
 
 def coq_list(xs):
@@ -280,8 +372,8 @@ def sty(t):
     return ws(rust_ty(t))
 
 
-def field_ident(style, i):
-    return "f%d" % i if style == "named" else str(i)
+def field_ident(style, i, raw=False):
+    return fname(raw, i) if style == "named" else str(i)
 
 
 def expected_from_impls(case, impls):
@@ -307,7 +399,7 @@ def expected_from_impls(case, impls):
         if style == "unit":
             body = "{%s}" % path
         elif style == "named":
-            body = "{%s{%s}}" % (path, "".join("f%d:%s," % (i, x) for i, x in enumerate(inits)))
+            body = "{%s{%s}}" % (path, "".join("%s:%s," % (fname(case.get("raw"), i), x) for i, x in enumerate(inits)))
         else:
             body = "{%s(%s)}" % (path, "".join(x + "," for x in inits))
         out.append({"params": params, "trait": "%s<%s>" % (FROM_PATH, src), "self_ty": ws(name + g[1]),
@@ -326,7 +418,7 @@ def expected_into_impls(case, impls):
         me = ws(r + lf + m + "S" + g[1])
         params = ([LF] if r else []) + list(g[2])
         target = canon_paren("(%s)" % ",".join(r + lf + m + sty(t) for t in d["tys"]))
-        elems = ["<%s%s%sas%s<_>>::from(%s%svalue.%s)" % (r, m, sty(ty), FROM_PATH, r, m, field_ident(style, idx))
+        elems = ["<%s%s%sas%s<_>>::from(%s%svalue.%s)" % (r, m, sty(ty), FROM_PATH, r, m, field_ident(style, idx, case.get("raw")))
                  for (idx, _fty, ty) in d["inits"]]
         out.append({"params": params, "trait": "%s<%s>" % (FROM_PATH, me), "self_ty": target, "where": list(g[3]),
                     "sig_ty": me, "sig": "fnfrom(value:%s)->Self", "body": "{(%s)}" % ",".join(elems)})
@@ -336,13 +428,13 @@ def expected_into_impls(case, impls):
 def expected_ctor_impl(case, m):
     g = GENERICS[case["gen"]]
     style = case["style"]
-    var = (lambda i: "f%d" % i) if style == "named" else (lambda i: "__%d" % i)
+    var = (lambda i: fname(case.get("raw"), i)) if style == "named" else (lambda i: "__%d" % i)
     params = ",".join("%s:%s" % (var(i), sty(t)) for (i, t) in m["params"])
     me = ws("S" + g[1])
     if style == "tuple":
         body = "{S(%s)}" % ",".join(var(v) for v in m["inits"])
     else:
-        body = "{S{%s}}" % ",".join("f%d:%s" % (k, var(v)) for k, v in enumerate(m["inits"]))
+        body = "{S{%s}}" % ",".join("%s:%s" % (fname(case.get("raw"), k), var(v)) for k, v in enumerate(m["inits"]))
     return [{"params": list(g[2]), "trait": None, "self_ty": me, "where": list(g[3]),
              "sig_ty": None, "sig": "constfnnew(%s)->%s" % (params, me), "body": body}]
 
@@ -357,15 +449,15 @@ def real_impls(resp):
         fns = [m for m in it["members"] if m["kind"] == "fn"]
         tr = it["trait"]
         if tr is not None:
-            tr = ws(tr)
+            tr = canon_commas(ws(tr))
             mm = re.match(r"^(.*?)<(.*)>$", tr)
             tr = "%s<%s>" % (mm.group(1), canon_paren(mm.group(2))) if mm else tr
-        sig = ws(fns[0]["sig"]) if fns else None
+        sig = canon_commas(ws(fns[0]["sig"])) if fns else None
         if sig and sig.startswith("fnfrom(value:") and sig.endswith(")->Self"):
             sig = "fnfrom(value:%s)->Self" % canon_paren(sig[len("fnfrom(value:"):-len(")->Self")])
-        out.append({"params": [ws(p) for p in it["params"]], "trait": tr, "self_ty": canon_paren(ws(it["self_ty"])),
-                    "where": [ws(w) for w in it["where"]], "sig": sig,
-                    "body": ws(fns[0]["body"]) if fns else None, "n_members": len(it["members"])})
+        out.append({"params": [ws(p) for p in it["params"]], "trait": tr, "self_ty": canon_paren(canon_commas(ws(it["self_ty"]))),
+                    "where": [canon_commas(ws(w)) for w in it["where"]], "sig": sig,
+                    "body": canon_commas(ws(fns[0]["body"])) if fns else None, "n_members": len(it["members"])})
     return out
 
 
@@ -373,8 +465,9 @@ def finish_expected(exp):
     out = []
     for e in exp:
         sig = e["sig"] % e["sig_ty"] if e["sig_ty"] is not None else e["sig"]
-        out.append({"params": e["params"], "trait": e["trait"], "self_ty": e["self_ty"], "where": e["where"],
-                    "sig": sig, "body": e["body"], "n_members": 1})
+        out.append({"params": e["params"], "trait": None if e["trait"] is None else canon_commas(e["trait"]),
+                    "self_ty": canon_commas(e["self_ty"]), "where": [canon_commas(w) for w in e["where"]],
+                    "sig": canon_commas(sig), "body": canon_commas(e["body"]), "n_members": 1})
     return out
 
 
@@ -487,6 +580,49 @@ def oracle_into(case):
     elif not any_field_conv:
         emit(src, conv_attr([None]))
     return out
+
+
+def listed_arity(case):
+    """documented acceptance of the listed types: -> (n fields, listed type, verdict) for every listed type;
+    verdict 'ok' | 'wrong-arity' (2+ fields want a tuple of exactly that many elements; one field does not want `()`)"""
+    out = []
+
+    def judge(n, t):
+        if n >= 2:
+            return "ok" if isinstance(t, tuple) and len(t) == n else "wrong-arity"
+        if n == 1 and t == ():
+            return "wrong-arity"
+        return "ok"
+    if case["derive"] == "From":
+        shapes = [(case["attrs"], case["fields"])] if case["kind"] == "struct" else \
+            [(v["attrs"], v["fields"]) for v in case["variants"]]
+        for attrs, ftys in shapes:
+            for a in attrs:
+                if a is None or a in (["skip"], ["ignore"], ["forward"]):
+                    continue
+                for t in a:
+                    out.append((len(ftys), t, judge(len(ftys), t)))
+    elif case["derive"] == "Into":
+        def walk(attrs, n):
+            for a in attrs:
+                for it in (a or []):
+                    for t in ([it[1]] if it[0] == "t" else (it[2] or [])):
+                        out.append((n, t, judge(n, t)))
+        skipped = 0
+        for (t, attrs) in case["fields"]:
+            conv = []
+            for a in attrs:
+                if a is not None and len(a) == 1 and a[0][0] == "t" and a[0][1] in ("skip", "ignore"):
+                    skipped += 1
+                else:
+                    conv.append(a)
+            walk(conv, 1)
+        walk(case["sattrs"], len(case["fields"]) - skipped)
+    return out
+
+
+def has_listed_tuple(case):
+    return any(isinstance(t, tuple) and len(t) >= 2 for (_n, t, _v) in listed_arity(case))
 
 
 # ------------------------------------------------------------------ the instrumented universe of the run-time crate
@@ -622,10 +758,12 @@ def pick_fields(rng, n, rt):
     if not rt and rng.random() < 0.35:
         pool += ["T", "U", "i32", "u8", "String", "Vec<T>", "&'static str", "Option<U>", "[u8; 4]", ("i32", "u8")]
     rng.shuffle(pool)
+    while len(pool) < n:
+        pool.append(rng.choice(pool))          # more fields than types: some repeat
     return pool[:n]
 
 
-N_WEIGHTS = [0, 1, 1, 1, 2, 2, 2, 2, 3, 3, 3, 4, 4, 5, 6]
+N_WEIGHTS = [0, 1, 1, 1, 2, 2, 2, 2, 3, 3, 3, 4, 4, 5, 6, 2, 3, 9, 12]     # 12: `value.10`, `value.11`
 
 
 def style_for(rng, n):
@@ -651,7 +789,11 @@ def bad_listed(rng, ftys):
     n = len(ftys)
     r = rng.random()
     if r < 0.25:
-        return tuple(["X"] * rng.choice([0, 1, max(0, n - 1), n + 1, n + 2]))
+        return tuple(["X"] * rng.choice([0, 1, max(0, n - 1), n + 1, n + 1, n + 2]))
+    if r < 0.33 and n >= 1:
+        good = listed_from(rng, ftys, False)
+        good = good if isinstance(good, tuple) and n != 1 else (good,)
+        return good + (rng.choice(["X", good[-1]]),)          # a well-formed listed type with one component too many
     if r < 0.45:
         return "X"
     if r < 0.6:
@@ -693,19 +835,31 @@ def gen_from_attrs(rng, ftys, rt, variant):
     return [tys]
 
 
+def gen_raw(rng):
+    """braced structs/variants whose field names are raw identifiers (`r#f0`)"""
+    return rng.random() < 0.12
+
+
+def gen_spell(rng):
+    """half of the cases write their tuple types plainly, the others with trailing commas / line breaks"""
+    return 0 if rng.random() < 0.45 else rng.randrange(1, 1 << 30)
+
+
 def gen_from(rng, rt):
     gen = 0 if rt or rng.random() < 0.6 else rng.randrange(1, len(GENERICS))
     if rng.random() < 0.45:
         n = rng.choice(N_WEIGHTS)
         ftys = pick_fields(rng, n, rt)
         return {"derive": "From", "kind": "struct", "gen": gen, "style": style_for(rng, n),
-                "attrs": gen_from_attrs(rng, ftys, rt, False), "fields": ftys, "rt": rt}
+                "attrs": gen_from_attrs(rng, ftys, rt, False), "fields": ftys, "rt": rt, "spell": gen_spell(rng),
+                "raw": gen_raw(rng)}
     vs = []
     for _ in range(rng.choice([1, 2, 2, 3, 3, 4, 5])):
         n = rng.choice([0, 0, 1, 1, 1, 2, 2, 3, 4])
         ftys = pick_fields(rng, n, rt)
         vs.append({"style": style_for(rng, n), "attrs": gen_from_attrs(rng, ftys, rt, True), "fields": ftys})
-    return {"derive": "From", "kind": "enum", "gen": gen, "variants": vs, "rt": rt}
+    return {"derive": "From", "kind": "enum", "gen": gen, "variants": vs, "rt": rt, "spell": gen_spell(rng),
+            "raw": gen_raw(rng)}
 
 
 def listed_into(rng, src, kind, rt):
@@ -742,11 +896,21 @@ def gen_conv_attrs(rng, src, rt, allow_empty_list):
                 items.append(["k", k, [listed_into(rng, src, k, rt) for _ in range(rng.choice([1, 1, 2]))]])
             if rng.random() < 0.15:
                 items.append(["k", k, None])
+        if rng.random() < 0.35:
+            # the same wrapper more than once in this one attribute (types accumulate, bare forms too), interleaved
+            for _ in range(rng.choice([1, 1, 2])):
+                k = rng.choice([it[1] for it in items])
+                extra = ["k", k, None] if rng.random() < 0.25 or (rt and len(src) == 0) else \
+                    ["k", k, [listed_into(rng, src, k, rt) for _ in range(rng.choice([1, 1, 2]))]]
+                items.insert(rng.randrange(len(items) + 1), extra)
         if not rt and rng.random() < 0.1:
             items.insert(rng.randrange(len(items) + 1), ["t", "X"])        # mixing: rejected
         if not rt and allow_empty_list and rng.random() < 0.05:
             items = []
         attrs.append(items)
+    if rt and allow_empty_list and None in attrs and len(attrs) > 1:
+        # struct level: a bare `#[into]` cannot be combined with another `#[into..]` (refused, not a documented form)
+        attrs = [a for a in attrs if a is not None] or [None]
     return attrs
 
 
@@ -769,17 +933,21 @@ def gen_into(rng, rt):
     src = [f[0] for f in fields
            if not any(a is not None and len(a) == 1 and a[0][0] == "t" and a[0][1] in ("skip", "ignore") for a in f[1])]
     sattrs = [] if rng.random() < 0.3 else gen_conv_attrs(rng, src, rt, True)
-    if not rt and rng.random() < 0.04:
-        sattrs.append([["k", "ref", [tuple(["X"] * (len(src) + 1))]]])        # wrong arity
+    if not rt and rng.random() < 0.06:
+        k = rng.choice(KINDS)
+        bad = tuple(src) + (src[-1] if src else "X",) if rng.random() < 0.6 else tuple(src[:-1])
+        sattrs.append([["k", k, [bad]]] if rng.random() < 0.7 else [["t", bad]])        # wrong arity
     if not rt and rng.random() < 0.03:
         sattrs.append([["t", ()]])        # `()`: fine for no field, a diagnostic for one (04051df), wrong arity otherwise
-    return {"derive": "Into", "gen": gen, "style": style_for(rng, n), "sattrs": sattrs, "fields": fields, "rt": rt}
+    return {"derive": "Into", "gen": gen, "style": style_for(rng, n), "sattrs": sattrs, "fields": fields, "rt": rt,
+            "spell": gen_spell(rng), "raw": gen_raw(rng)}
 
 
 def gen_ctor(rng, rt):
     gen = 0 if rt or rng.random() < 0.6 else rng.randrange(1, len(GENERICS))
     n = rng.choice(N_WEIGHTS)
-    return {"derive": "Constructor", "gen": gen, "style": style_for(rng, n), "fields": pick_fields(rng, n, rt), "rt": rt}
+    return {"derive": "Constructor", "gen": gen, "style": style_for(rng, n), "fields": pick_fields(rng, n, rt), "rt": rt,
+            "spell": gen_spell(rng), "raw": gen_raw(rng)}
 
 
 CORPUS = [
@@ -818,6 +986,45 @@ CORPUS = [
     {"derive": "Into", "gen": 0, "style": "unit", "rt": True, "sattrs": [[["t", ()]]], "fields": []},
     {"derive": "Into", "gen": 0, "style": "named", "rt": True, "sattrs": [],
      "fields": [["F0", []], ["F1", [None]]]},
+    # tuple types written with a trailing comma / over several lines are the same types
+    {"derive": "From", "kind": "struct", "gen": 0, "style": "tuple", "attrs": [[("Pa0", "Pb1")]], "fields": ["F0", "F1"],
+     "rt": True, "spell": "trail"},
+    {"derive": "From", "kind": "struct", "gen": 0, "style": "named", "attrs": [[("Pa0", "Pb1", "F2"), ("F0", "F1", "Pa2")]],
+     "fields": ["F0", "F1", "F2"], "rt": True, "spell": "ml"},
+    {"derive": "From", "kind": "enum", "gen": 0, "rt": True, "spell": "trail", "variants": [
+        {"style": "tuple", "attrs": [[("Pa0", "Pa1"), ("Pb0", "F1")]], "fields": ["F0", "F1"]},
+        {"style": "named", "attrs": [[("Pa2", "Pa3", "Pa4")]], "fields": ["F2", "F3", "F4"]},
+        {"style": "tuple", "attrs": [], "fields": ["F5"]}]},
+    {"derive": "From", "kind": "struct", "gen": 0, "style": "tuple", "attrs": [[("X", "X", "X")]], "fields": ["F0", "F1"],
+     "rt": False, "spell": "trail"},
+    {"derive": "From", "kind": "struct", "gen": 0, "style": "tuple", "attrs": [[(("i32", "u8"), "Pa1")]],
+     "fields": [("i32", "u8"), "F1"], "rt": False, "spell": "trail"},
+    {"derive": "Into", "gen": 0, "style": "tuple", "rt": True, "spell": "trail", "sattrs": [[["t", ("Qa0", "Qb1")]]],
+     "fields": [["F0", []], ["F1", []]]},
+    {"derive": "Into", "gen": 0, "style": "named", "rt": True, "spell": "ml", "sattrs": [[["t", ("Qa0", "F1")], ["t", ("Qb0", "Qb1")]]],
+     "fields": [["F0", []], ["F1", []]]},
+    {"derive": "Into", "gen": 0, "style": "named", "rt": True, "spell": "trail",
+     "sattrs": [[["k", "ref", [("Ra0", "F1")]], ["k", "ref_mut", None], ["k", "owned", [("Qa0", "Qb1")]]]],
+     "fields": [["F0", []], ["F1", []], ["F2", [[["t", "skip"]]]]]},
+    {"derive": "Into", "gen": 0, "style": "tuple", "rt": True, "spell": "ml",
+     "sattrs": [[["k", "ref_mut", [("Rb0", "Ra1", "F2")]]]], "fields": [["F0", []], ["F1", []], ["F2", []]]},
+    {"derive": "Into", "gen": 0, "style": "tuple", "rt": False, "spell": "trail",
+     "sattrs": [[["k", "owned", [("F0", "F1", "F1")]]]], "fields": [["F0", []], ["F1", []]]},
+    # the same wrapper several times in ONE attribute: every occurrence counts
+    {"derive": "Into", "gen": 0, "style": "tuple", "rt": True,
+     "sattrs": [[["k", "owned", ["Qa0"]], ["k", "ref", ["F0"]], ["k", "ref_mut", ["F0"]], ["k", "owned", ["Qb0"]]]],
+     "fields": [["F0", []]]},
+    {"derive": "Into", "gen": 0, "style": "named", "rt": True,
+     "sattrs": [[["k", "ref", [("Ra0", "F1")]], ["k", "owned", None], ["k", "ref", [("F0", "Rb1")]], ["k", "ref", None],
+                 ["k", "ref_mut", [("Rb0", "Rb1")]], ["k", "ref_mut", [("F0", "Ra1"), ("Ra0", "Ra1")]]]],
+     "fields": [["F0", []], ["F1", []]]},
+    {"derive": "Into", "gen": 0, "style": "tuple", "rt": True, "sattrs": [],
+     "fields": [["F0", [[["k", "ref", ["F0"]], ["k", "ref_mut", ["Ra0"]], ["k", "ref", ["Rb0"]], ["k", "owned", ["Qa0"]],
+                         ["k", "owned", ["Qb0"]]]]], ["F1", []]]},
+    {"derive": "Into", "gen": 0, "style": "tuple", "rt": True, "spell": "trail",
+     "sattrs": [[["k", "owned", [("Qa0", "Qa1")]], ["k", "owned", [("Qb0", "Qb1"), ("F0", "Qa1")]]],
+                [["k", "owned", [("Qa0", "F1")]]]],
+     "fields": [["F0", []], ["F1", []]]},
     {"derive": "Constructor", "gen": 0, "style": "tuple", "fields": ["F0", "F1", "F2"], "rt": True},
     {"derive": "Constructor", "gen": 0, "style": "named", "fields": ["F3", "F1"], "rt": True},
     {"derive": "Constructor", "gen": 2, "style": "named", "fields": ["T", "U"], "rt": False},
@@ -873,11 +1080,11 @@ def has_one_tuple(case):
     return walk(case["sattrs"]) or any(walk(f[1]) for f in case["fields"])
 
 
-def observe_fields_expr(style, ftys, var):
+def observe_fields_expr(style, ftys, var, raw=False):
     """Rust expression producing "v0,v1" from the fields of `var`"""
     if not ftys:
         return "String::new()"
-    parts = ["%s.%s%s.to_string()" % (var, field_ident(style, i), getter(t)) for i, t in enumerate(ftys)]
+    parts = ["%s.%s%s.to_string()" % (var, field_ident(style, i, raw), getter(t)) for i, t in enumerate(ftys)]
     return "[%s].join(\",\")" % ", ".join(parts)
 
 
@@ -885,7 +1092,7 @@ def fmt_vals(vals):
     return ",".join(str(v) for v in vals)
 
 
-def rt_from(case, cid, impls, rng):
+def rt_from(case, cid, impls, rng, mode=None):
     """module source + expected observations for one From case"""
     is_enum = case["kind"] == "enum"
     name = "E" if is_enum else "S"
@@ -902,7 +1109,7 @@ def rt_from(case, cid, impls, rng):
 
     def observe(expr_var):
         if not is_enum:
-            return 'format!("S:{}", %s)' % observe_fields_expr(case["style"], case["fields"], expr_var)
+            return 'format!("S:{}", %s)' % observe_fields_expr(case["style"], case["fields"], expr_var, case.get("raw"))
         arms = []
         for k, v in enumerate(case["variants"]):
             n = len(v["fields"])
@@ -911,7 +1118,7 @@ def rt_from(case, cid, impls, rng):
             else:
                 binds = ["x%d" % i for i in range(n)]
                 if v["style"] == "named":
-                    pat = "E::V%d { %s }" % (k, ", ".join("f%d: x%d" % (i, i) for i in range(n)))
+                    pat = "E::V%d { %s }" % (k, ", ".join("%s: x%d" % (fname(case.get("raw"), i), i) for i in range(n)))
                 else:
                     pat = "E::V%d(%s)" % (k, ", ".join(binds))
                 vals = "[%s].join(\",\")" % ", ".join("x%d%s.to_string()" % (i, getter(t)) for i, t in enumerate(v["fields"])) \
@@ -996,6 +1203,10 @@ def rt_from(case, cid, impls, rng):
         m_exp = any(unify_src(d["src"], x, shape(d["variant"])[1]) for d in impls)
         obs.append({"id": oid, "what": "probe", "model": str(m_exp).lower(), "oracle": str(o_exp).lower(),
                     "desc": "%s: From<%s>" % (name, rust_ty(x))})
+    if mode is not None:
+        # "probes": only the trait-resolution probes (always compile); "values": only the calls
+        keep = [i for i, o in enumerate(obs) if (o["what"] == "probe") == (mode == "probes")]
+        body, obs = [body[i] for i in keep], [obs[i] for i in keep]
     lines.append("pub fn run() { %s }" % "\n".join(body))
     return "\n".join(lines), obs
 
@@ -1007,7 +1218,7 @@ def ref_ty(kind, t):
     return "&'static %s%s" % ("mut " if kind == "ref_mut" else "", rust_ty(t))
 
 
-def rt_into(case, cid, impls, rng):
+def rt_into(case, cid, impls, rng, mode=None):
     style = case["style"]
     ftys = [f[0] for f in case["fields"]]
     n = len(ftys)
@@ -1015,7 +1226,7 @@ def rt_into(case, cid, impls, rng):
     if style == "unit":
         mk = "S"
     elif style == "named":
-        mk = "S { %s }" % ", ".join("f%d: %s" % (i, mk_val(t, 10 + i)) for i, t in enumerate(ftys))
+        mk = "S { %s }" % ", ".join("%s: %s" % (fname(case.get("raw"), i), mk_val(t, 10 + i)) for i, t in enumerate(ftys))
     else:
         mk = "S(%s)" % ", ".join(mk_val(t, 10 + i) for i, t in enumerate(ftys))
     body, obs = [], []
@@ -1054,7 +1265,7 @@ def rt_into(case, cid, impls, rng):
                 cs = []
                 for i, f in enumerate(ftys):
                     ok = (f == t) if sub == "" else (f[1:] == t[2:])
-                    cs.append("ad(&s.%s%s)" % (field_ident(style, i), sub) if ok else "0usize")
+                    cs.append("ad(&s.%s%s)" % (field_ident(style, i, case.get("raw")), sub) if ok else "0usize")
                 return "[%s]" % ", ".join(cs), sub
             pre, post = [], []
             for i, t in enumerate(tys):
@@ -1124,6 +1335,10 @@ def rt_into(case, cid, impls, rng):
         m_exp = any(d["kind"] == k and paren_list(list(d["tys"])) == t for d in impls)
         obs.append({"id": oid, "what": "probe", "model": str(m_exp).lower(), "oracle": str(o_exp).lower(),
                     "desc": "%s: From<%s>" % (tsrc, me)})
+    if mode is not None:
+        # "probes": only the trait-resolution probes (always compile); "values": only the calls
+        keep = [i for i, o in enumerate(obs) if (o["what"] == "probe") == (mode == "probes")]
+        body, obs = [body[i] for i in keep], [obs[i] for i in keep]
     lines.append("pub fn run() { %s }" % "\n".join(body))
     return "\n".join(lines), obs
 
@@ -1133,12 +1348,12 @@ def rt_roundtrip(case, cid, m_ctor):
     style, ftys = case["style"], case["fields"]
     n = len(ftys)
     src = "#[derive(derive_more::From, derive_more::Into, derive_more::Constructor, Debug, PartialEq, Clone)] " + \
-          struct_src([], 0, style, fields_src(style, ftys), "S")
+          struct_src([], 0, style, fields_src(style, ftys, None, Speller(case.get("spell", 0)), case.get("raw")), "S")
     tup = own_tuple(ftys)
     tsrc = rust_ty(tup)
     args = ", ".join(mk_val(t, 10 + i) for i, t in enumerate(ftys))
     tval = mk_val(tup, 10) if n != 1 else mk_val(ftys[0], 10)
-    obs_fields = observe_fields_expr(style, ftys, "s")
+    obs_fields = observe_fields_expr(style, ftys, "s", case.get("raw"))
     body = [
         "let t: %s = %s;" % (tsrc, tval),
         "let s: S = From::from(t.clone());",
@@ -1333,6 +1548,19 @@ def run(tier, seed, replay):
         r_out = "panic" if "panic" in r else ("err" if "err" in r else "ok")
         m_out = m if m in ("err", "panic") else "ok"
         outcomes[(d, r_out)] = outcomes.get((d, r_out), 0) + 1
+        # acceptance, judged by the documented rules alone (no model): every run-time-stream case is a documented,
+        # well-formed input; a listed type of the wrong arity has to be refused
+        arity = listed_arity(c) if d != "Constructor" else []
+        if r_out != "ok" and c.get("rt"):
+            cls = "listed-tuple-rejected" if has_listed_tuple(c) else "documented-input-rejected"
+            chk.violation(cls, {"case": c, "item": item_src(c), "code": r},
+                          "the documented, well-formed `%s` is not accepted by derive(%s): %s" %
+                          (item_src(c), d, r.get("err") or r.get("panic")))
+        if r_out == "ok" and any(v == "wrong-arity" for (_n, _t, v) in arity):
+            n, t, _ = next(x for x in arity if x[2] == "wrong-arity")
+            chk.violation("listed-tuple-wrong-arity-accepted", {"case": c, "item": item_src(c), "listed": rust_ty(t), "fields": n},
+                          "`%s`: the listed type %s does not have one component per field (%d) but derive(%s) accepts it" %
+                          (item_src(c), rust_ty(t), n, d))
         if r_out != m_out:
             cls = "tie-inproc-outcome"
             if r_out == "panic" or m_out == "panic":
@@ -1381,17 +1609,19 @@ def run(tier, seed, replay):
             # the expansion is not what the model says: observe it through the documented rules alone
             m2 = impls_from_oracle(c)
             if m2 is not None:
-                if c["derive"] == "From":
-                    src, obs = rt_from(c, cid, m2, rng)
-                elif c["derive"] == "Into":
-                    src, obs = rt_into(c, cid, m2, rng)
+                # two modules: the probes (compile whatever the impl set is) and the documented calls (a missing or
+                # ill-typed impl is then a compile error of that module only)
+                if c["derive"] == "Constructor":
+                    parts = [(cid, rt_roundtrip(c, cid, m2))]
                 else:
-                    src, obs = rt_roundtrip(c, cid, m2)
-                mods2.append((cid, src))
-                for o in obs:
-                    o["model"] = None
-                    specs[o["id"]] = o
-                    owner[o["id"]] = idx
+                    f = rt_from if c["derive"] == "From" else rt_into
+                    parts = [(cid + "p", f(c, cid + "p", m2, rng, "probes")), (cid + "v", f(c, cid + "v", m2, rng, "values"))]
+                for (mid, (src, obs)) in parts:
+                    mods2.append((mid, src))
+                    for o in obs:
+                        o["model"] = None
+                        specs[o["id"]] = o
+                        owner[o["id"]] = idx
             continue
         if not ok or not rt_eligible(c, m):
             continue
@@ -1553,7 +1783,7 @@ def run_rt_crate(chk, mods, cases, name):
                           "the generated crate does not build and the error is in no case module", no_input=True)
             return observed
         for cid, text in bad.items():
-            c = cases[int(cid[1:])]
+            c = cases[int(re.match(r"c(\d+)", cid).group(1))]
             cls = "rt-compile-error-" + c["derive"].lower()
             if c["derive"] == "Into" and has_one_tuple(c):
                 cls = "into-listed-one-tuple-flattened"
